@@ -235,6 +235,9 @@ type NumStyle struct {
 	R        *rng.R
 	Variety  bool // use hex/octal/binary/sign/exponent forms; false = canonical decimal
 	NonCanon *int // incremented when a non-canonical form is used
+	// Replace, when set, may substitute the literal written for slot i of item it
+	// (i = -1: called once after the item's last value; returned tokens are appended).
+	Replace func(it *ref.Item, slot int) []Tok
 }
 
 func (st *NumStyle) note() {
@@ -391,6 +394,9 @@ func ItemToks(st *NumStyle, it *ref.Item, withSize bool) []Tok {
 		for _, c := range it.Children {
 			out = append(out, ItemToks(st, c, withSize)...)
 		}
+		if st.Replace != nil {
+			out = append(out, st.Replace(it, -1)...)
+		}
 	case ref.A:
 		if it.AVar != "" {
 			switch {
@@ -410,12 +416,21 @@ func ItemToks(st *NumStyle, it *ref.Item, withSize bool) []Tok {
 				out = append(out, SizeTok(len(it.Str)))
 			}
 			out = append(out, st.ASCIIToks(it.Str)...)
+			if st.Replace != nil {
+				out = append(out, st.Replace(it, -1)...)
+			}
 		}
 	default:
 		if withSize && (len(it.Slots) == 0 || !st.Variety || st.R.Chance(2, 3)) {
 			out = append(out, SizeTok(len(it.Slots)))
 		}
-		for _, s := range it.Slots {
+		for si, s := range it.Slots {
+			if st.Replace != nil {
+				if rep := st.Replace(it, si); rep != nil {
+					out = append(out, rep...)
+					continue
+				}
+			}
 			if s.Var != "" {
 				out = append(out, W(s.Var))
 				continue
@@ -440,6 +455,9 @@ func ItemToks(st *NumStyle, it *ref.Item, withSize bool) []Tok {
 			default:
 				out = append(out, st.FloatLit(it.Kind, s.Uint))
 			}
+		}
+		if st.Replace != nil {
+			out = append(out, st.Replace(it, -1)...)
 		}
 	}
 	return append(out, B(">"))
